@@ -30,6 +30,7 @@ package firewall
 //@   loop 1 invariant forall i int :: 0 <= i && i < rangeidx1 ==> (operatorPublicKeys[i].String() in allowedPublicKeys)
 
 //@ func anyApplicationPolicy.Validate
+//@   binds ghost.tcShared = false
 //@   property C21
 //@   binds ghost.fwRecognized = false
 //@   binds ghost.fwErrored = false
